@@ -687,7 +687,12 @@ def stepSeq (st : DrvState) (toks : List String) (impl : String) : DrvState × V
     (match (tailN 2 ps).toNat? with
      | some size =>
        let cfg : SeqCfg := { newProto := k == "Ksl" && pv == "pvnew", pageSize := size }
-       ({ seq := some (World.init cfg, SeqMon.init cfg) }, { model := if cfg.newProto then "new1" else "new0" })
+       ({ seq := some (World.init cfg, SeqMon.init cfg) }, { model := "ok" })
+     | none => (st, bad))
+  | [_, "connect"] =>
+    -- the client connects: which protocol the session runs (string layer: the model's state is that of `cfg`)
+    (match st.seq with
+     | some (w, _) => (st, { model := if w.newProto then "new1" else "new0" })
      | none => (st, bad))
   | t :: r =>
     (match st.seq, (tail1 t).toNat?, parseSeqOp r with
